@@ -487,3 +487,19 @@ Theorem C20_conc_handle_tuple : forall c progs sched,
   exists h, get_handle (sh x) id = Some h /\ nth_error (t_asked th) k = Some (h_tuple h).
 Proof. exact conc_handle_tuple. Qed.
 Print Assumptions C20_conc_handle_tuple.
+
+(* ---------------------------------------------------------------- default configuration *)
+(* A metric registered WITHOUT an explicit MaxSeriesPerMetric (zero value) is capped at DefaultMaxSeriesPerMetric = 10000:
+   for every schedule, at every point, it never has more than 10000 series.  (The machine takes [eff_cap raw] as its cap;
+   the `bulk` correspondence cases register all three metric kinds with cap 0 and drive them past 10000 tuples.) *)
+Theorem C20_default_cap : forall k nl bs progs sched,
+  let c := {| c_kind := k; c_cap := eff_cap 0; c_nlabels := nl; c_buckets := bs; c_variant := Repaired |} in
+  Z.of_nat (length (snapshot (sh (run_sched c (sys0 progs) sched)))) <= 10000.
+Proof.
+  intros k nl bs progs sched c. destruct (conc_cap c progs sched eq_refl) as [H _]. apply H. vm_compute. reflexivity.
+Qed.
+Print Assumptions C20_default_cap.
+
+Theorem C20_eff_cap_spec : forall raw, eff_cap raw = (if raw =? 0 then 10000 else raw) /\ (raw <> 0 -> eff_cap raw = raw).
+Proof. intros raw. unfold eff_cap, default_cap. split; [reflexivity|]. intros H. destruct (Z.eqb_spec raw 0); [contradiction | reflexivity]. Qed.
+Print Assumptions C20_eff_cap_spec.
